@@ -525,6 +525,28 @@ func Variants() []Variant {
 					Schema: strings.Replace(strings.Replace(f.Schema, `"data_row_index": 2,`, fmt.Sprintf(`"data_row_index": %d,`, dri), 1), `"header_row_index": 1,`, ``, 1),
 					Gen:    func(r *vh.Rng, n int) []byte { return append([]byte(junk(r, dri-1)), body(r, n)...) }})
 			}
+			// CRLF line ends with quoted multi-line fields (CR LF inside the quotes), with and without rows to skip
+			ml := func(r *vh.Rng, n int) string {
+				var sb strings.Builder
+				for k := 0; k < n; k++ {
+					q := word(r)
+					if r.Chance(0.6) {
+						q = r.PickStr("zz\r\ntop", "line1\r\nline2\r\nline3", "\r\n", "a\r\n", "\r\nb", "x\ry", "héllo\r\n日本")
+					}
+					fmt.Fprintf(&sb, "%s,%s,\"%s\"\r\n", strings.ReplaceAll(word(r), " ", "_"), numOrBad(r), q)
+					if r.Chance(0.1) {
+						sb.WriteString("\r\n")
+					}
+				}
+				return sb.String()
+			}
+			out = append(out, Variant{Name: "csv+crlf-multiline", FmtIdx: i, Schema: f.Schema,
+				Gen: func(r *vh.Rng, n int) []byte { return []byte("a,b,c\r\n" + ml(r, n)) }})
+			out = append(out, Variant{Name: "csv+crlf-multiline-skiprows", FmtIdx: i,
+				Schema: strings.Replace(strings.Replace(f.Schema, `"data_row_index": 2,`, `"data_row_index": 5,`, 1), `"header_row_index": 1,`, `"header_row_index": 2,`, 1),
+				Gen: func(r *vh.Rng, n int) []byte {
+					return []byte("# exported\r\na,b,c\r\nskip,1,\"x\"\r\nskip,2,\"y\"\r\n" + ml(r, n))
+				}})
 			out = append(out, Variant{Name: "csv+replacequotes", FmtIdx: i,
 				Schema: strings.Replace(f.Schema, `"delimiter": ",",`, `"delimiter": ",", "replace_double_quotes": true,`, 1), Gen: f.Gen})
 		case "csv2":
@@ -545,6 +567,21 @@ func Variants() []Variant {
 							fmt.Fprintf(&sb, "L%d|%s|%s\n", l, numOrBad(r), word(r))
 						}
 						fmt.Fprintf(&sb, "END|%s\n", word(r))
+					}
+					return []byte(sb.String())
+				}})
+			out = append(out, Variant{Name: "csv2+crlf-multiline", FmtIdx: i, Schema: f.Schema,
+				Gen: func(r *vh.Rng, n int) []byte {
+					var sb strings.Builder
+					if r.Chance(0.7) {
+						sb.WriteString("H|head\r\n")
+					}
+					for k := 0; k < n; k++ {
+						q := word(r)
+						if r.Chance(0.6) {
+							q = "\"" + r.PickStr("zz\r\ntop", "l1\r\nl2\r\nl3", "\r\n", "a\r\n", "x\ry") + "\""
+						}
+						fmt.Fprintf(&sb, "R|%s|%s|%s\r\n", word(r), numOrBad(r), q)
 					}
 					return []byte(sb.String())
 				}})
@@ -666,7 +703,18 @@ func GenInput(r *vh.Rng, v Variant) (in []byte, kind string) {
 // GenInputForFaults is GenInput2 for C16: variants with a FaultGuard get un-damaged inputs.
 func GenInputForFaults(r *vh.Rng, v Variant) Input {
 	if v.FaultGuard == nil {
-		return GenInput2(r, v)
+		x := GenInput2(r, v)
+		// line based formats: a final unterminated line of 1-3 bytes (DOS EOF marker Ctrl-Z, a blank,
+		// a letter ...): bufio.ReadLine hands it out with a nil error and consumes the read error
+		// that came with it, so only the next read can surface a fault at the end of the data
+		if (v.FmtIdx == 0 || v.FmtIdx == 1 || v.FmtIdx == 3 || v.FmtIdx == 4) && r.Chance(0.3) {
+			if n := len(x.In); n > 0 && x.In[n-1] != '\n' {
+				x.In = append(x.In, '\n')
+			}
+			x.In = append(x.In, r.PickStr("\x1a", "\x1a", " ", "x", "\x1a\x1a", "ab ", "\x00", "\x1a\r", "R")...)
+			x.Kind += "+short-last-line"
+		}
+		return x
 	}
 	n, size := r.Between(0, 8), "small"
 	if r.Chance(0.15) {
